@@ -267,3 +267,12 @@ Definition dec_Z (n : Z) : str :=
 Definition two63 : Z := 2 ^ 63.
 Definition two64 : Z := 2 ^ 64.
 Definition wrap64 (z : Z) : Z := (z + two63) mod two64 - two63.
+
+(* ---------- compact literals for long, regular cell lists (used only by generated case files) ---------- *)
+Definition rep {A} (n : Z) (x : A) : list A := repeat x (Z.to_nat n).
+Fixpoint iota_nat (k : ikind) (start step : Z) (n : nat) : list cell :=
+  match n with
+  | O => []
+  | S m => CI k start :: iota_nat k (start + step) step m
+  end.
+Definition iota (k : ikind) (start step n : Z) : list cell := iota_nat k start step (Z.to_nat n).
